@@ -626,6 +626,7 @@ pub fn record_c20(a: &Args) -> usize {
     let fails = ["none", "read_settings", "set_baud_rate", "write_settings", "set_timeout"];
     let ctors = ["configure_port", "bus", "odk"];
     let mut k = 0usize;
+    let mut runs = 0usize;
     for b in bauds {
         for c in bits {
             for p in parities {
@@ -643,7 +644,8 @@ pub fn record_c20(a: &Args) -> usize {
                                 }
                                 let st = Rc::new(RefCell::new(PortState::new(prior.clone())));
                                 st.borrow_mut().fail = fail.to_string();
-                                st.borrow_mut().fail_kind = k + ci;
+                                runs += 1;
+                                st.borrow_mut().fail_kind = runs; // independent of the rotation of constructors: every kind meets every call
                                 let port = IPort::new(st.clone());
                                 // the caller's time-out: ordinary values, zero, sub-millisecond, beyond 2^31 ms, beyond 2^32 s, the maximum
                                 let timeout: Duration = [
@@ -659,7 +661,7 @@ pub fn record_c20(a: &Args) -> usize {
                                     Duration::from_nanos(1),
                                 ][k % 10];
                                 let treq = format!("{}.{:09}", timeout.as_secs(), timeout.subsec_nanos());
-                                out.emit(json!({"e": "setup", "ctor": ctor, "prior": line_json(&prior), "timeout": treq, "fail": fail, "kind": (k + ci) % 6}));
+                                out.emit(json!({"e": "setup", "ctor": ctor, "prior": line_json(&prior), "timeout": treq, "fail": fail, "kind": runs % 6}));
                                 let res = match *ctor {
                                     "configure_port" => {
                                         let mut port = port;
